@@ -454,6 +454,14 @@ class Interp:
                 n = v.len
                 return n != 0 if not is_sym(n) else self.ctx.branch(n != 0, what)
             raise Undecided("truth value of an array")
+        if isinstance(v, Opaque) and not getattr(v, "truthy", False):
+            # nothing is known about an opaque value, so neither is its truth value (None, 0, "" and [] are possible):
+            # one symbolic boolean per opaque object, branched on like any other condition
+            b = getattr(v, "_truth_sym", None)
+            if b is None:
+                b = z3.Bool(f"truth({v.tag}#{v.id})")
+                v._truth_sym = b
+            return self.ctx.branch(b, what)
         if isinstance(v, (SObj, AbstractObj, FuncVal, ClassVal, BoundMethod, LibRef, ExtClass, Opaque)):
             if isinstance(v, SObj):
                 c, m = self.class_lookup(v.cls, "__len__")
@@ -744,6 +752,17 @@ class Interp:
         return self.eval(s, env)
 
     def getitem(self, obj, idx):
+        if isinstance(obj, Opaque) and getattr(obj, "subscriptable", False):
+            # an element of an unknown container is another unknown value (never the same object as a different argument);
+            # only for opaques created as free constructor arguments, where every contract allows the lookup to raise
+            key = repr(idx)
+            cache = obj.__dict__.setdefault("_items", {})
+            if key not in cache:
+                o = Opaque(f"{obj.tag}[{key}]", prov=obj)
+                o.distinct = True
+                o.subscriptable = True
+                cache[key] = o
+            return cache[key]
         if isinstance(obj, SList):
             if isinstance(idx, SSlice):
                 lo, hi, st = idx.lo, idx.hi, idx.step
